@@ -18,3 +18,10 @@ R = "dulwich/refs.py"
 for _fn, _pathvar in (("DiskRefsContainer._add_packed_refs", "path"), ("DiskRefsContainer._remove_packed_ref", "filename")):
     _c = REGISTRY[(R, _fn)]
     _c.options = dict(_c.options, asserts=list(_c.options.get("asserts", [])) + [("table-read-under-packed-refs-lock", "=packed_refs = self.get_packed_refs().copy()", [f"holds_lock({_pathvar})"])])
+
+# ---- C08 / C09: a delete removes the packed entry BEFORE the loose file (while the loose file exists it shadows the packed one:
+#      no reader, no crash and no held packed-refs.lock can make a stale packed value visible)
+import contracts.c16_refs  # noqa: F401,E402
+_c = REGISTRY[(R, "DiskRefsContainer.remove_if_equals")]
+_c.prop = sorted(set(_c.prop) | {"C09"})
+_c.options = dict(_c.options, asserts=list(_c.options.get("asserts", [])) + [("packed-entry-removed-before-loose-file", "os.remove(filename)", ["upred('unpacked', name)"])])
